@@ -49,6 +49,9 @@ func calleeID(c ssa.CallInstruction) string {
 
 func fnID(f *ssa.Function) string {
 	f = origin(f)
+	if id, ok := renamedAs[f]; ok {
+		return id
+	}
 	if o := f.Object(); o != nil {
 		if fo, ok := o.(*types.Func); ok {
 			return stripTypeArgs(fo.FullName())
